@@ -255,3 +255,13 @@ Definition spec_content (hs : list ahunk) (p : path) (n : node) : node :=
 
 Definition spec_apply (p : aplan) (t : fs) : fs :=
   map (fun e => (final_path (ap_renames p) (fst e), spec_content (ap_hunks p) (fst e) (snd e))) t.
+
+(* ---- crash semantics: the process is killed before its k-th mutating operation; what is on disk
+   is the result of the first k operations of the fault-free run (page cache intact) ---- *)
+Fixpoint run_ops (os : list mop) (t : fs) : fs :=
+  match os with
+  | [] => t
+  | o :: os' => match exec_mop o t with FOk t' => run_ops os' t' | FErr _ => t end
+  end.
+Definition crash_prefix (p : aplan) (t : fs) (k : nat) : fs :=
+  run_ops (firstn k (r_trace (apply_core no_fault p t))) t.
